@@ -13,6 +13,17 @@ Definition term_of_mode (mode : N) : term :=
 Definition masked (mask : N) (bit : N) (v : list N * list N) : list (list N) :=
   if N.testbit mask bit then [fst v; snd v] else [NOT_ISSUED; []].
 
+Definition enc_cerr (e : cerr) : list N * list N :=
+  match e with
+  | CEApplicationClosed c r => ([1; c], r)
+  | CELocalH3 e => ([2; ecode_idx e], [])
+  | CELocallyClosed => ([3], [])
+  | CETimedOut => ([4], [])
+  | CEConnectionClosed => ([5], [])
+  | CEQuicProto => ([6], [])
+  | CECids => ([7], [])
+  end.
+
 Definition model_601 (a : list (list N)) : list (list N) :=
   let mode := argn 0 0 a in
   let code := argn 0 1 a in
@@ -24,6 +35,14 @@ Definition model_601 (a : list (list N)) : list (list N) :=
       [[1]] ++ masked mask 0 wait ++ masked mask 1 wait ++ masked mask 2 wait ++
       [fst wait; snd wait; fst wait; snd wait; fst wait; snd wait] ++
       [fst open; snd open; fst closed; snd closed; fst raw; snd raw] in
+  if mode =? 4 then
+    (* Connection::close: quinn reports LocallyClosed to every call, the peer gets code and reason *)
+    let l := enc_cerr (with_driver_error DNotConnected (Some QLocally)) in
+    mk l l l ([1; varint_w2q code], reason)
+  else if mode =? 5 then
+    let l := enc_cerr (with_driver_error DNotConnected (Some QTimedOut)) in
+    mk l l l ([4], [])
+  else
   match r with
   | RAppClosed c rs => mk ([1; c], rs) ([3], []) ([3], []) ([1; to_code ENoError], [])
   | RClose e => mk ([2; ecode_idx e], []) ([3], []) ([3], []) ([1; to_code e], [])
@@ -293,9 +312,31 @@ Definition model (f : N) (a : list (list N)) : list (list N) :=
   | _ => [[PANIC]]
   end.
 
+(* ---- family 671: the library on both ends ---- *)
+Definition chk_671 (a o : list (list N)) : bool :=
+  let kind := argn 0 1 a in
+  let code := argn 0 3 a in
+  let sizes := arg 1 a in
+  let reason := arg 2 a in
+  let dg := arg 3 a in
+  let remote := enc_cerr (of_quinn (QApp (varint_q2w code) reason)) in
+  let local := enc_cerr (of_quinn QLocally) in
+  let dgp := flat_map (fun _ => [1; 1]) dg in
+  lists_eqb o ([[1; len sizes]] ++ map (fun sz => [1; sz; 0]) sizes ++ [[7777]]
+               ++ map (fun _ => if kind =? 0 then [1; 1; 0] else [1; 1; 0; 1]) sizes
+               ++ [[8888]; dgp; dgp; [9999]]
+               ++ [fst remote; snd remote; fst remote; snd remote; fst local]).
+
+(* all handles dropped: the peer sees the connection end (how is quinn's business) *)
+Definition chk_601 (a o : list (list N)) : bool :=
+  if argn 0 0 a =? 6 then match o with [[1]; seen; _] => negb (list_eqb seen PENDING) | _ => false end
+  else lists_eqb (model_601 a) o.
+
 Definition chk (c : case) : bool :=
   let '(f, a, o) := c in
-  if f =? 621 then chk_621 a o
+  if f =? 601 then chk_601 a o
+  else if f =? 671 then chk_671 a o
+  else if f =? 621 then chk_621 a o
   else if f =? 631 then chk_631 a o
   else if f =? 651 then chk_651 a o
   else if f =? 661 then chk_661 a o
